@@ -25,6 +25,9 @@ def check(chk, thorough=False):
     chk.run('C05.f', 'R-NOPATH', 'when fragmentation is impossible nothing altered is transmitted: no mutation of the original before a raise; a failed TX step never reaches the sender', lambda ob: c05f(tree, ob), floor=2)
     chk.run('C05.h', 'R-ORDER', 'sizes seen by the TX steps include the CRC fields: the bundle is filled before the TX chain runs, and block filling always reaches the CRC placeholder step', lambda ob: c05h(tree, ob), floor=3)
     chk.run('C05.i', 'R-FLOW', 'functions scheduled once with glib.idle_add (send_bundle for fragments and reports, recv_bundle) never return a truthy value, which would make GLib call them again', lambda ob: c05i(tree, ob), floor=3)
+    chk.run('C05.m', 'R-ORDER', 'the primary block is complete (creation time filled whenever zero) before the cutter measures it: fragments are not completed one by one afterwards', lambda ob: c05m(tree, ob), floor=2)
+    chk.run('C05.n', 'R-WHO', 'what was measured against the MTU is what is sent: the CRC update on the way out recomputes values, it never changes which blocks carry a CRC', lambda ob: c05n(tree, ob), floor=1)
+    chk.run('C05.o', 'R-WHO', 'the route tables are only appended to at run time: a configured route (pattern order, MTU) is never replaced or dropped by discovery', lambda ob: __import__('sa.props.common', fromlist=['route_tables_append_only']).route_tables_append_only(tree, ob), floor=1)
     chk.run('C05.g', 'R-PAIR', 'deleting a block encoded data also drops its parsed payload (else it is regenerated and the "empty" measurement is full size)', lambda ob: c05g(tree, ob), floor=1)
 
 
@@ -512,8 +515,78 @@ def c05k(tree, ob):
     # a routed container is not routed again: the decision is stored only where none was on record
     sets = [n for n in walk_local(fv.func) if isinstance(n, ast.Assign) and any(src(t) == 'ctr.route' for t in n.targets)]
     ob.require(sets, 'store of the routing decision')
+    # ... and the decision is taken from the table as it is NOW: what is stored is None or the item the walk stopped at.  Taken
+    # from a memo of earlier lookups, a destination that had no route once never gets the one that was added since (a report-to
+    # node discovered after the first report failed gets none of the later reports).
+    for st in sets:
+        if isinstance(st.value, ast.Name) and isinstance(loop.target, ast.Name):
+            for (dst, v) in fv.reaching_defs(st.value.id, st):
+                if v is None or not isinstance(v, ast.AST):
+                    continue
+                if (isinstance(v, ast.Constant) and v.value is None) or (isinstance(v, ast.Name) and v.id == loop.target.id):
+                    continue
+                ob.violate(AGENT, fv.qual, '{} = {}'.format(st.value.id, src(v)[:50]), 'the transmit route is not (only) taken from a walk of the route table at the time of sending but from a remembered result: '
+                           'routes added meanwhile (peer discovery, add_tx_route) are not seen for destinations that were looked up before', dst if isinstance(dst, ast.AST) else st, sure=True)
     for st in sets:
         if fv.has(st, 'ctr.route', False) or fv.has(st, 'ctr.route is None', True):
             ob.site(AGENT, st, 'a container that has a route keeps it')
         else:
             ob.violate(AGENT, fv.qual, src(st) + '  (also when ctr.route is set)', 'a container that already has a route is routed again: its fragments, cut for the first route, can leave on another one', st)
+
+
+def c05m(tree, ob):
+    ''' fragments are cut from a bundle whose primary block is complete: every fragment repeats it, so a field that is still
+    unset when the cutter measures is filled in later, once per fragment -- differently (each fragment gets its own creation
+    time, and an identity of its own) and longer (a one-octet zero becomes a nine-octet time: the fragment outgrows the MTU
+    it was cut for).  The creation time is filled whenever it is zero, whatever else the bundle carries. '''
+    fv = FuncView(tree, 'bp/agent.py', 'Agent._apply_primary')
+    sets = [n for n in walk_local(fv.func) if isinstance(n, ast.Assign) and len(n.targets) == 1 and src(n.targets[0]).endswith('.create_ts') and pm('self.timestamp()', n.value) is not None]
+    st = one(sets, 'default creation time in _apply_primary', ob)
+    base = src(st.targets[0])
+    facts = [(t, p) for (t, p) in (fv.facts(st) or ()) if not t.startswith('isinstance(')]
+    own = [(t, p) for (t, p) in facts if t in ("{}.getfieldval('dtntime') == 0".format(base), "{}.dtntime == 0".format(base)) and p is True]
+    extra = [(t, p) for (t, p) in facts if (t, p) not in own and 'report' not in t and 'source' not in t and 'bundle_flags' not in t]
+    if own and not extra:
+        ob.site('bp/agent.py', st, 'a zero creation time is always filled before the bundle is measured and cut')
+    else:
+        ob.violate('bp/agent.py', fv.qual, '{} under {}'.format(src(st), ' and '.join(('' if p else 'not ') + t for (t, p) in (extra or facts))[:100]),
+                   'the creation time of an originated bundle stays zero for some bundles (here: when another test also holds): the fragments cut from it are completed one by one afterwards, '
+                   'each with its own time -- they exceed the MTU they were cut for and no longer belong to one bundle', st, sure=bool(extra))
+    # ... and the completion comes before the TX chain (where the cutter runs)
+    fs = FuncView(tree, 'bp/agent.py', 'Agent.send_bundle')
+    calls = method_calls(fs.func, '_apply_primary', 'self')
+    loops = [n for n in walk_local(fs.func) if isinstance(n, ast.For) and 'self._tx_chain' in src(n.iter)]
+    c = one(calls, '_apply_primary call in send_bundle', ob)
+    lp = one(loops, 'TX chain loop in send_bundle', ob)
+    if fs.node(lp.iter) in fs.cfg.reachable([fs.node(c)]) and fs.node(c) not in fs.cfg.reachable([fs.node(lp.iter)]):
+        ob.site('bp/agent.py', c, 'primary block defaults are applied before the TX chain')
+    else:
+        ob.violate('bp/agent.py', fs.qual, src(c), 'primary block defaults are applied after (or inside) the TX chain: the cutter measures an incomplete primary block', c)
+
+
+def c05n(tree, ob):
+    ''' the size the cutter (and the "fits the MTU" test) worked with is the size that is sent: between the TX chain and the
+    encode only the CRC VALUES are recomputed.  A CRC update that also decides which blocks HAVE a CRC (gives a CRC-less primary
+    block CRC-32 "because RFC 9171 wants one") adds 4-5 octets to every fragment after it was measured. '''
+    n = 0
+    for rel in ('bp/encoding/blocks.py', 'bp/encoding/bundle.py'):
+        for (r, qual, func) in tree.all_functions([rel]):
+            for node in walk_local(func):
+                hit = None
+                if isinstance(node, (ast.Assign, ast.AugAssign)):
+                    for t in (node.targets if isinstance(node, ast.Assign) else [node.target]):
+                        if isinstance(t, ast.Attribute) and t.attr == 'crc_type':
+                            hit = t
+                        if isinstance(t, ast.Subscript) and isinstance(t.slice, ast.Constant) and t.slice.value == 'crc_type':
+                            hit = t
+                        if isinstance(t, ast.Subscript) and src(t.slice).endswith('crc_type_name'):
+                            hit = t
+                if isinstance(node, ast.Call) and isinstance(node.func, ast.Attribute) and node.func.attr in ('setfieldval', '__setattr__', 'setattr') and node.args and \
+                        ((isinstance(node.args[0], ast.Constant) and node.args[0].value == 'crc_type') or src(node.args[0]).endswith('crc_type_name')):
+                    hit = node
+                if hit is not None:
+                    n += 1
+                    ob.violate(rel, qual, src(node)[:70], 'the encoding layer changes the CRC type of a block (on the way to the wire, after the bundle was measured against the MTU and cut): '
+                               'every fragment grows by the CRC field and its array head', node, sure=True)
+    fs = FuncView(tree, 'bp/agent.py', 'Agent.send_bundle')
+    ob.site('bp/agent.py', fs.func, 'CRC updates recompute values only: no write of a CRC type in the encoding layer ({} found)'.format(n))
